@@ -20,6 +20,7 @@ fn gen_cfg() -> GenCfg {
         (K::WriteRetry, 6),
         // a flush hit by a transient fault and repeated: the repeated flush's success is a flush point like any other
         (K::FlushRetry, 4),
+        (K::SetTimes, 4),
         (K::Seek, 5),
         (K::Flush, 10),
         (K::CloseFile, 8),
@@ -78,6 +79,13 @@ fn check_decoded(dec: &refdec::Decoded, img: &Store, ev: &FlushEvent, what: &str
             let direct = refdec::read_chain_raw(img, &dec.geom, e.first_cluster, e.size as u64);
             if d != &ev.data && direct.as_ref() != Some(&ev.data) {
                 return Err(format!("{}: {} has {} bytes in the crash image that differ from the {} bytes flushed (independent decode; entry size {}, chain of {} clusters)", what, ev.path, d.len(), ev.data.len(), e.size, e.clusters.len()));
+            }
+            // the rest of the entry the flush handed over: a creation time set through the flushed handle
+            if let Some(c) = ev.created {
+                let on_disk = crate::tree::Ts::from_words(e.cdate, e.ctime, e.ctime_cs);
+                if on_disk != c {
+                    return Err(format!("{}: the entry of {} carries the creation time {:?} in the crash image, the flushed handle had set {:?}", what, ev.path, on_disk, c));
+                }
             }
         } else {
             dir = e.child.as_deref().ok_or_else(|| format!("{}: {} lost an ancestor in the crash image", what, ev.path))?;
